@@ -56,13 +56,31 @@ Definition dep_of_name (o : cbo_options) (r : cref) : list cref :=
 Definition analyze_inheritance (o : cbo_options) (c : class) : list cref :=
   flat_map (dep_of_name o) (c_bases c).
 
-(* extractTypeAnnotationDependencies cbo.go:223-291 *)
+(* extractTypeAnnotationDependencies cbo.go:223-291.
+   The operands of X | Y are parsed as *expressions* (tree-sitter binary_operator), so a generic
+   there is a Subscript node, not a generic_type node: buildSubscript keeps only the first
+   subscript argument in Children, and the NodeSubscript case looks at Children[1] only when there
+   are at least two children: nothing is extracted from the generic in Y | List[X].  When the
+   LEFT operand is a generic the whole annotation is a tree-sitter union_type node instead, which
+   the analyser does not recognise at all (List[X] | Y contributes neither X nor Y).  Unions of
+   three or more operands whose leftmost operand is a generic are outside the correspondence. *)
+Fixpoint expr_annotation_deps (o : cbo_options) (t : ty) : list cref :=
+  match t with
+  | TRef r => dep_of_name o r
+  | TUnion a b => expr_annotation_deps o a ++ expr_annotation_deps o b
+  | TGen1 _ _ | TGen2 _ _ _ => []                 (* NodeSubscript with a single child *)
+  | TNone | TStr => []
+  end.
 Fixpoint type_annotation_deps (o : cbo_options) (t : ty) : list cref :=
   match t with
   | TRef r => dep_of_name o r                     (* NodeName / NodeAttribute *)
   | TGen1 _ a => type_annotation_deps o a         (* generic_type: only the type_parameter children *)
   | TGen2 _ a b => type_annotation_deps o a ++ type_annotation_deps o b
-  | TUnion a b => type_annotation_deps o a ++ type_annotation_deps o b   (* BinOp "|" *)
+  | TUnion a b =>
+      match a with
+      | TGen1 _ _ | TGen2 _ _ _ => []             (* List[X] | Y: a tree-sitter union_type node, which isTypeAnnotation does not list *)
+      | _ => expr_annotation_deps o a ++ expr_annotation_deps o b   (* BinOp "|" *)
+      end
   | TNone | TStr => []                            (* Constant: not a type annotation node *)
   end.
 Definition opt_annotation_deps (o : cbo_options) (t : option ty) : list cref :=
